@@ -58,8 +58,12 @@ def main(argv=None) -> int:
                                  "case": {"exception": type(e).__name__}, "detail": text[-3000:],
                                  "replay": {"exception": type(e).__name__, "traceback": text[-3000:]}})
         else:
-            print("INTERNAL ERROR in harness:\n" + tb)
-            return 2
+            # the harness itself failed while driving / judging the implementation (an output of an unexpected shape, a
+            # helper that is gone): the correspondence could not be evaluated, so the tie no longer checks.  Reported as
+            # a violation without a failing input (the traceback is the replay), never silently passed.
+            print("harness could not evaluate the implementation's behaviour:\n" + tb[-1500:])
+            ctx.disagreements.append({"relation": "harness-evaluation", "case": {"exception": type(e).__name__, "traceback": text[-3000:]},
+                                      "impl": "behaviour the harness could not evaluate", "model": None})
     return framework.finish(ctx, proof, build_error, level=getattr(mod, "LEVEL", "proof"))
 
 
